@@ -175,12 +175,14 @@ def _worker(args):
         if vv == "timeout":
             st.timeouts += 1
             if getattr(mod, "TIMEOUT_IS_FAILURE", False):
-                v = dict(v); v["v"] = "fail"; v["sig"] = "timeout:no_verdict"
+                v = dict(v); v["v"] = "fail"; v["sig"] = "timeout:no_verdict"; vv = "fail"
             else:
                 return
         if vv == "error":
             st.errors += 1
             return
+        if vv == "libexit" and getattr(mod, "LIBEXIT_IS_FAILURE", False):
+            v = dict(v); v["v"] = "fail"; vv = "fail"
         st.evaluations += 1; st.all_hashes.add(h)
         try:
             for lab in mod.classify(case, v):
